@@ -274,6 +274,7 @@ type c18FetchObs struct {
 	SetPlan  int
 	Cancel   int
 	Schemes  []string       // schemes of every request made during this call
+	TCancel  time.Time      // the instant this call\'s context was (to be) cancelled by a timer or before the call (zero = none)
 	Caller   int            // 0 = sequential caller; 1.. = member of a concurrent group
 	Group    int            // index of the concurrent operation (0 = none; operation 0 is always a plain fetch)
 	Peers    []*c18FetchObs // every member of the group, this one included
@@ -420,6 +421,7 @@ func (sc *c18Scenario) exec(obs *c18Obs) {
 			switch op.CancelKind {
 			case 1:
 				cancel()
+				fo.TCancel = time.Now()
 			case 2:
 				off := cancelOffset
 				if live {
@@ -428,6 +430,7 @@ func (sc *c18Scenario) exec(obs *c18Obs) {
 					off -= time.Duration(key) * 50 * time.Microsecond
 				}
 				time.AfterFunc(time.Duration(op.CancelMs)*time.Millisecond+off, cancel)
+				fo.TCancel = time.Now().Add(time.Duration(op.CancelMs)*time.Millisecond + off)
 			}
 			schemesBy[key] = nil
 			fo.TStart = time.Now()
